@@ -246,9 +246,19 @@ structure BFRes where
   cost   : Option Int
   deriving Repr
 
-/-- the detection round and the construction of the result -/
+/-- following `parent` from `v` reaches `-1` within `fuel` steps -/
+def chainEnds (par : Tab Nat) : Nat → Nat → Bool
+  | 0, _ => false
+  | fuel + 1, v => match look par v with | none => true | some p => chainEnds par fuel p
+
+/-- `_has_parent_cycle(parent)`: from some node the predecessor pointers never reach `-1` (on `n` nodes:
+not within `n` steps).  The Python helper decides the same predicate with a three-colour walk. -/
+def hasParCycle (n : Nat) (par : Tab Nat) : Bool := (List.range n).any fun v => !chainEnds par n v
+
+/-- the detection round, the predecessor-cycle guard and the construction of the result -/
 def bfFinish (n : Nat) (E : List (Edge Int)) (st : BFSt) (target : Option Nat) : BFRes :=
   if E.any (relaxable st.dist) then ⟨.UNBOUNDED, st.dist, st.par, none, none⟩
+  else if hasParCycle n st.par then ⟨.UNBOUNDED, st.dist, st.par, none, none⟩
   else
     match target with
     | none => ⟨.OPTIMAL, st.dist, st.par, none, none⟩
